@@ -39,12 +39,12 @@ def run(tier, seed, selftest=False, replay=None):
         cs = read_json(os.path.join(replay, "case.json"))["case"]
         cases = [{"id": json.loads(cs["id"].rsplit("/", 1)[0]), "ct": cs["ct"], "order": ["A", "B", "Cc", "D"], "u": cs["u"], "ps": cs["ps"], "lang": cs["lang"]}]
     else:
-        g, tabs = tables(2 if tier != "quick" else 1)
+        g, tabs = tables(2)      # nesting 2 in both tiers (nested generic targets such as A<B<Int>> against A<A<X>>); quick samples the tables
         gstates = (g.distinct, g.generated)
         cases = [dict(t, lang=LANGS[(i + seed) % 4]) for i, t in enumerate(tabs)]
         if tier == "quick":
             rnd.shuffle(cases)
-            cases = cases[:128]
+            cases = cases[:64]
     T("generated %d table cases" % len(cases))
     d = subdir("c10")
     parts = chunks(cases, max(1, (len(cases) + NCPU - 1) // NCPU))
